@@ -470,7 +470,7 @@ func (f *Filter) HashMatchAny(key [KeySize]byte, data [][]byte) (bool, error) {
 	}
 
 	var (
-		values    = make(map[uint32]struct{}, sizeHint)
+		values    = make(map[uint64]struct{}, sizeHint)
 		lastValue uint64
 	)
 
@@ -483,7 +483,7 @@ func (f *Filter) HashMatchAny(key [KeySize]byte, data [][]byte) (bool, error) {
 		value, err := f.readFullUint64(b)
 		if err == nil {
 			lastValue += value
-			values[uint32(lastValue)] = struct{}{}
+			values[lastValue] = struct{}{}
 			continue
 		} else if err == io.EOF {
 			break
@@ -508,7 +508,7 @@ func (f *Filter) HashMatchAny(key [KeySize]byte, data [][]byte) (bool, error) {
 		// of our modulus.
 		v = fastReduction(v, nphi, nplo)
 
-		if _, ok := values[uint32(v)]; !ok {
+		if _, ok := values[v]; !ok {
 			continue
 		}
 
